@@ -40,6 +40,10 @@ theorem compile_const_inv2 {d : Datum}
   rcases hd with ⟨b, rfl⟩ | ⟨ch, rfl⟩ | ⟨n, rfl⟩ | ⟨s, rfl⟩ <;>
     (simp only [compileExpr] at h; cases h; exact ⟨rfl, rfl⟩)
 
+theorem compile_vec_inv2 {e : Datum} (h : compileExpr (fuel + 1) st c base tail (.vec e) = .ok (st', code)) :
+    code = [.op .movImm, .datum (.vec e), .acc] ∧ st' = st := by
+  simp only [compileExpr] at h; cases h; exact ⟨rfl, rfl⟩
+
 theorem compile_sym_inv2 {s : Text} (h : compileExpr (fuel + 1) st c base tail (.sym s) = .ok (st', code)) :
     code = [.op .mov, emitLoc c s, .acc] ∧ st' = st := by
   simp only [compileExpr] at h
